@@ -136,7 +136,12 @@ class DbInfo:
         if gm and ri:
             for bb, c in f.calls():
                 if c.get("res") == "std::vec::Vec::<T, A>::retain":
-                    for cid, loc in c.get("clos", []):
+                    clos = [cid for cid, loc in c.get("clos", []) if cid in self.crate.fns]
+                    if not clos and len(c["args"]) > 1:
+                        # generic helper spliced into f: the predicate is a parameter there; follow the operand back to the
+                        # closure the caller built
+                        clos = self._closure_of_operand(f, c["args"][1])
+                    for cid in clos:
                         cf = self.crate.fns.get(cid)
                         if cf is None:
                             continue
@@ -153,6 +158,22 @@ class DbInfo:
                                     continue
                             return ("retain", shp["capture_param"])
         return None
+
+    def _closure_of_operand(self, f, op, depth=0):
+        l = op_local(op)
+        if l is None or depth > 8:
+            return []
+        out = []
+        for d in f.whole_defs(l):
+            if d[0] == "assign":
+                rv = d[3]
+                if rv[0] == "agg" and rv[1][0] == "closure":
+                    out.append(rv[1][1])
+                elif rv[0] == "use":
+                    out += self._closure_of_operand(f, rv[1], depth + 1)
+                elif rv[0] == "ref":
+                    out += self._closure_of_operand(f, ["cp", rv[2]], depth + 1)
+        return out
 
     def _bypass_only_after_take(self, f, h):
         """every branch that lets f return without entering the loop at h is decided by the outcome of an exclusive
